@@ -8,11 +8,12 @@
     the abstract semantics to the breadth-first traversal with scope-restricted
     bindings and visited-set pruning is proved as well (c02_string): every
     occurrence of every compiled non-empty pattern is in the list returned by
-    the run, bound at the position of the occurrence.  For matrices that step
-    is covered by the correspondence and oracle tests, not by a theorem. *)
+    the run, bound at the position of the occurrence; likewise for matrices
+    (c02_matrix, keys non-negative as produced by every MatrixPattern).  For port
+    graphs only the abstract statement is proved (c02_portgraph_partial). *)
 From PM Require Import Model.Prelude Model.Domain Model.Automaton Model.DomString Model.DomMatrix
   Model.Traversal Spec.Occ Cert.WfCheck Cert.WinCheck Cert.CharCert Cert.ExampleAut Proofs.WinSound Proofs.StringRun
-  Model.DomPGKeys Model.DomPG Cert.PGCert Proofs.PGComplete.
+  Model.DomPGKeys Model.DomPG Cert.PGCert Proofs.PGComplete Proofs.MatrixRun.
 
 Theorem c02_cert_complete_partial :
   forall (K P : Type) (entails refutes : list (constraint K P) -> constraint K P -> bool)
@@ -71,6 +72,20 @@ Theorem c02_string :
     exists L, In (N.of_nat i, SBound a L) ms.
 Proof. exact s_complete. Qed.
 
+(** matrices, the run itself: every occurrence (anchor cell [s]) of every compiled
+    pattern is reported, bound at [s] *)
+Theorem c02_matrix :
+  forall (A : automaton mkey cpredicate) (rk : list (N * nat)) (ids : list N) (pats : list mpattern)
+         (present : list bool) (fuel : nat) (h : mhost) (ms : list (N * mpm)) (i : nat) (p : mpattern) (s : mval),
+    wf_check matrix_dom A rk ids = true ->
+    cert_complete (char_entails mkey_eqb) (char_refutes mkey_eqb) A (map m_cvec pats) present = true ->
+    m_keys_tight A (map m_cvec pats) = true -> m_keys_nn A = true ->
+    nth_error pats i = Some p -> nth_error present i = Some true ->
+    occ_matrix p h s ->
+    run matrix_dom fuel A h = Ok ms ->
+    exists a b, In (N.of_nat i, MBound s a b) ms.
+Proof. exact m_complete. Qed.
+
 Example c02_string_example :
   wf_check string_dom ex_aut (compute_rank ex_aut) [0; 1; 2]%N = true
   /\ s_keys_tight ex_aut (map s_cvec ex_pats) = true
@@ -89,5 +104,6 @@ Qed.
 Print Assumptions c02_cert_complete_partial.
 Print Assumptions c02_string_partial.
 Print Assumptions c02_string.
+Print Assumptions c02_matrix.
 Print Assumptions c02_matrix_partial.
 Print Assumptions c02_portgraph_partial.
